@@ -679,3 +679,54 @@ Proof.
 Qed.
 
 Local Transparent Z.mul Z.add Z.div Z.modulo.
+
+(* ================================================================== why the SAME argument count matters *)
+(* a packet encoded with k < 3 arguments and at least 4(3-k) payload bytes, decoded with n_args = 3: three
+   arguments come back, the missing ones taken from the payload, which is shortened by those words *)
+Lemma scp_decode_more_args : forall q,
+  scp_in_width q -> args_prefix q -> arg3 q = None ->
+  (4 * (3 - Z.to_nat (n_present q)) <= length (data (sdp_part q)))%nat ->
+  exists q', scp_of_bytes (scp_wire q) 3 = Ok q'
+             /\ arg1 q' <> None /\ arg2 q' <> None /\ arg3 q' <> None
+             /\ data (sdp_part q') = skipn (4 * (3 - Z.to_nat (n_present q))) (data (sdp_part q))
+             /\ (arg1 q <> None -> arg1 q' = arg1 q) /\ (arg2 q <> None -> arg2 q' = arg2 q).
+Proof.
+  intros [[r t dp dc sp sc dx dy sx sy d] c s a1 a2 a3] Hw Hp H3n Hl.
+  unfold scp_in_width, sdp_in_width, byte, args_prefix in *.
+  cbn [sdp_part cmd_rc seq arg1 arg2 arg3
+       reply_expected tag dest_port dest_cpu src_port src_cpu dest_x dest_y src_x src_y data] in *.
+  destruct Hw as (_ & _ & _ & H1 & H2 & _). destruct Hp as [P1 P2]. subst a3.
+  destruct a1 as [v1|], a2 as [v2|];
+    try (specialize (P1 eq_refl); discriminate P1);
+    unfold opt_word32, word32 in *;
+    unfold n_present, present in Hl; cbn [arg1 arg2 arg3] in Hl;
+    unfold scp_wire, sdp_wire_header, le16, opt_le32, le32, n_present, present;
+    cbn [app sdp_part cmd_rc seq arg1 arg2 arg3
+         reply_expected tag dest_port dest_cpu src_port src_cpu dest_x dest_y src_x src_y data];
+    rewrite scp_of_bytes_cons; eexists; (split; [reflexivity|]).
+  - change (Z.to_nat (1 + 1 + 0)) with 2%nat in *. cbn [Nat.sub Nat.mul Nat.add] in Hl.
+    replace (taken 3 _) with 3%nat by (unfold taken; cbn [length]; lia).
+    cbn [arg1 arg2 arg3 sdp_part data argi Nat.ltb Nat.leb Nat.mul Nat.add Nat.sub skipn firstn le_value].
+    repeat split; try discriminate; intros _; f_equal; lia.
+  - change (Z.to_nat (1 + 0 + 0)) with 1%nat in *. cbn [Nat.sub Nat.mul Nat.add] in Hl.
+    replace (taken 3 _) with 3%nat by (unfold taken; cbn [length]; lia).
+    cbn [arg1 arg2 arg3 sdp_part data argi Nat.ltb Nat.leb Nat.mul Nat.add Nat.sub skipn firstn le_value].
+    repeat split; try discriminate; try (intros X; exfalso; apply X; reflexivity); intros _; f_equal; lia.
+  - change (Z.to_nat (0 + 0 + 0)) with 0%nat in *. cbn [Nat.sub Nat.mul Nat.add] in Hl.
+    replace (taken 3 _) with 3%nat by (unfold taken; lia).
+    cbn [arg1 arg2 arg3 sdp_part data argi Nat.ltb Nat.leb Nat.mul Nat.add Nat.sub skipn firstn le_value].
+    repeat split; try discriminate; intros X; exfalso; apply X; reflexivity.
+Qed.
+
+Lemma ex_decode_n_args_0 :
+  exists q, scp_of_bytes [0; 0; 135; 1; 2; 3; 4; 5; 6; 7; 8; 9; 10; 11;
+                          21; 22; 23; 24; 25; 26; 27; 28; 29; 30; 31; 32] 0 = Ok q
+            /\ arg1 q = None /\ arg2 q = None /\ arg3 q = None
+            /\ data (sdp_part q) = [21; 22; 23; 24; 25; 26; 27; 28; 29; 30; 31; 32].
+Proof. eexists. split; [vm_compute; reflexivity|]. cbn. repeat split; reflexivity. Qed.
+
+Lemma ex_decode_negative_n_args :
+  exists q, scp_of_bytes [0; 0; 7; 1; 2; 3; 4; 5; 6; 7; 8; 9; 10; 11; 21; 22; 23; 24; 25] (-2) = Ok q
+            /\ arg1 q = None /\ arg2 q = None /\ arg3 q = None /\ data (sdp_part q) = [21; 22; 23; 24; 25]
+            /\ args_taken (-2) 19 = 0%nat.
+Proof. eexists. split; [vm_compute; reflexivity|]. cbn. repeat split; reflexivity. Qed.
